@@ -777,3 +777,43 @@ pub mod verif_hooks {
         double_large_factor(n)
     }
 }
+
+/// Verification hooks (only with `--cfg yamaquasi_verif`): private fields of `Poly` and
+/// `Workspace::batch_inversion` (property C12).
+#[cfg(yamaquasi_verif)]
+pub mod verif_hooks_poly {
+    use super::*;
+
+    /// Fields of a polynomial: (a, b, c, bb, d, dinv).
+    pub fn vh_poly_fields(pol: &Poly) -> (U256, U256, I256, Uint, u128, Uint) {
+        (pol.a, pol.b, pol.c, pol.bb, pol.d, pol.dinv)
+    }
+
+    /// `Workspace::batch_inversion` for the values `ds` (at most 16, as in `process_poly_block`)
+    /// over the factor base: row j holds the inverses of `ds[j]` modulo every prime (0 = divisible).
+    pub fn vh_batch_inversion(n: &Uint, fbase: &FBase, ds: Vec<u128>) -> Vec<Vec<u32>> {
+        let inverters: Vec<_> = (0..fbase.len())
+            .map(|idx| arith::Inverter::new(fbase.p(idx)))
+            .collect();
+        let rels = RwLock::new(RelationSet::new(*n, fbase.len(), 0));
+        let prefs = Preferences::default();
+        let s = SieveMPQS {
+            n: *n,
+            fbase,
+            inverters: &inverters,
+            maxlarge: 0,
+            use_double: false,
+            interval_size: BLOCK_SIZE as i64,
+            d_target: 3,
+            rels: &rels,
+            prefs: &prefs,
+            polys_done: AtomicUsize::new(0),
+            target: AtomicUsize::new(0),
+            done: AtomicBool::new(false),
+        };
+        let len = ds.len();
+        let mut wks = Workspace::default();
+        wks.batch_inversion(&s, ds);
+        (0..len).map(|j| wks.dinv_modp[j].to_vec()).collect()
+    }
+}
